@@ -143,7 +143,7 @@ Proof.
     + destruct (prep_entries skip child r) as [l'|e'] eqn:P; simpl in H; [|discriminate].
       inversion H. simpl. f_equal. now apply IH.
     + now apply IH.
-    + destruct e; try discriminate. destruct skip; [now apply IH | discriminate].
+    + destruct (skip e); [now apply IH | discriminate].
 Qed.
 
 Lemma prep_entries_In {A} skip (child : str -> result (option A)) names l n a :
@@ -157,7 +157,7 @@ Proof.
       * inversion I. subst. split; [now left | exact C].
       * destruct (IH l' eq_refl I). split; [now right | assumption].
     + destruct (IH l H I). split; [now right | assumption].
-    + destruct e; try discriminate. destruct skip; [|discriminate].
+    + destruct (skip e); [|discriminate].
       destruct (IH l H I). split; [now right | assumption].
 Qed.
 
@@ -171,15 +171,15 @@ Proof.
     + left. congruence.
     + right. now apply IH.
   - destruct I as [->|I]; [congruence | now apply IH].
-  - destruct e; try discriminate. destruct skip; [|discriminate].
+  - destruct (skip e); [|discriminate].
     destruct I as [->|I]; [congruence | now apply IH].
 Qed.
 
 (* with the repair, children that only ever fail with FileNotFound never make
    the listing fail *)
-Lemma prep_entries_total {A} (child : str -> result (option A)) names :
-  (forall n e, In n names -> child n = Raise e -> e = FileNotFound) ->
-  exists l, prep_entries true child names = Ok l.
+Lemma prep_entries_total {A} skip (child : str -> result (option A)) names :
+  (forall n e, In n names -> child n = Raise e -> skip e = true) ->
+  exists l, prep_entries skip child names = Ok l.
 Proof.
   induction names as [|n r IH]; simpl; intros H; [now exists []|].
   destruct IH as [l' E]; [intros m e I; apply H; now right|].
@@ -205,20 +205,25 @@ Proof.
     + destruct (prep_entries skip child r) as [l'|e'] eqn:P; simpl in H; [|discriminate].
       inversion H. f_equal. now apply IH.
     + now apply IH.
-    + destruct e; try discriminate. destruct skip; [now apply IH | discriminate].
+    + destruct (skip e); [now apply IH | discriminate].
 Qed.
 
-Lemma child_entry_raises_notfound w n e : child_entry w n = Raise e -> e = FileNotFound.
+(* a child fails with FileNotFound (nobody takes it) or with OSError (its handler cannot read it) *)
+Lemma child_entry_raises_notfound w n e : child_entry w n = Raise e -> e = FileNotFound \/ e = IOErr.
 Proof.
-  unfold child_entry. destruct (negb (is_secure (child_sel w n))); [congruence|].
-  destruct (w_stat w n) as [[| | |]|]; congruence.
+  unfold child_entry. destruct (negb (is_secure (child_sel w n))); [intros H; left; congruence|].
+  destruct (w_stat w n) as [[| | | |]|]; intros H; try discriminate; inversion H; auto.
 Qed.
 
-Lemma dir_child_raises_notfound w n e : dir_child w n = Raise e -> e = FileNotFound.
+Lemma dir_child_raises_notfound w n e : dir_child w n = Raise e -> e = FileNotFound \/ e = IOErr.
 Proof.
   unfold dir_child. destruct (child_entry w n) eqn:C; simpl; [discriminate|].
   intros H. inversion H. subst. eapply child_entry_raises_notfound; eauto.
 Qed.
+
+Lemma skip_of_survives fx e :
+  fx_skip_child fx = true -> fx_skip_unreadable fx = true -> e = FileNotFound \/ e = IOErr -> skip_of fx e = true.
+Proof. intros A B [->| ->]; assumption. Qed.
 
 Lemma dir_child_listed w n : child_listed (dir_child w) n = servable w n.
 Proof. unfold child_listed, dir_child, servable. destruct (child_entry w n); reflexivity. Qed.
